@@ -700,6 +700,25 @@ func (sc *Scope) trCall(x ECall) (Term, types.Type) {
 		k, _ := sc.Tr(x.Args[0])
 		mt := it.mt.Underlying().(*types.Map)
 		return Select(sc.heap(it.visited, ArraySort(env.SortOf(mt.Key()), SBool)), k), tBool
+	case "final":
+		// final(x): content of the local variable x at this point (for parameters: not the entry value)
+		id, ok := x.Args[0].(EIdent)
+		if !ok || sc.frame == nil {
+			sfail("final(x) needs a local variable")
+		}
+		t, typ, ok2 := sc.frame.localByName(sc.st, id.Name)
+		if !ok2 {
+			sfail("final(%s): no such local", id.Name)
+		}
+		return t, typ
+	case "mapvals":
+		// mapvals(m): the whole value function of map m (a mathematical map)
+		m, t := sc.Tr(x.Args[0])
+		if _, ok := t.Underlying().(*types.Map); !ok {
+			sfail("mapvals() on non-map")
+		}
+		_, vn, _, vs := env.mapHeaps(t)
+		return Select(sc.heap(vn, vs), m), t
 	case "lastselect":
 		// outcome of the most recent non-blocking select: 0 = received (cancelled), -1 = default
 		return sc.heap("sel!last", SInt), tInt
